@@ -124,15 +124,34 @@ func run(c *mon.Case) {
 				c2 = expr.NewConst(bs, expr.Width(w2))
 			}
 		}
+		if class == "" && r.Intn(6) == 0 {
+			// one constant object used as both operands (shared backing bytes)
+			c2, w2 = c1, w1
+			c.Count("shared_operand_object", 1)
+		}
+		snap1, snap2 := string(c1.Bytes()), string(c2.Bytes())
 		a := refir.Adjust(refir.FromLE(c1.Bytes()), w)
 		b := refir.Adjust(refir.FromLE(c2.Bytes()), w)
 		want := refir.BinOp(op, a, b, w)
 		e := expr.NewBinary(op, c1, c2, expr.Width(w))
-		var f expr.Expr
-		p, val, stack := mon.Try(func() { f = exprtransform.ConstFold(e) })
+		var f, f2 expr.Expr
+		var mid1, mid2 string
+		p, val, stack := mon.Try(func() {
+			f = exprtransform.ConstFold(e)
+			mid1, mid2 = string(c1.Bytes()), string(c2.Bytes()) // (an in-place byte reversal undoes itself on the second fold)
+			f2 = exprtransform.ConstFold(e)
+		})
 		feat := map[string]string{"op": opn[op]}
 		if p {
 			c.Fail("C10.panic", feat, "ConstFold(%s) panicked: %v\n%s", refir.String(e), val, stack)
+			continue
+		}
+		if mid1 != snap1 || mid2 != snap2 || string(c1.Bytes()) != snap1 || string(c2.Bytes()) != snap2 {
+			c.Fail("C10.input-mutated", feat, "ConstFold of %s width %d on operands %x, %x changed an operand constant: after one fold %x, %x, after two %x, %x", opn[op], w, snap1, snap2, mid1, mid2, c1.Bytes(), c2.Bytes())
+			continue
+		}
+		if fc2, ok := f2.(expr.Const); !ok || int(fc2.Width()) != w || refir.FromLE(fc2.Bytes()).Cmp(want) != 0 {
+			c.Fail("C10.refold", feat, "folding %s a second time gives %s, exact result %x (LE)", refir.String(e), refir.String(f2), refir.ToLE(want, w))
 			continue
 		}
 		fc, ok := f.(expr.Const)
@@ -174,11 +193,16 @@ func less(c *mon.Case, r *rand.Rand, w int) {
 		want = refir.Adjust(refir.FromLE(t.Bytes()), w)
 	}
 	e := expr.NewLess(c1, c2, t, f, expr.Width(w))
+	snap := fmt.Sprintf("%x|%x|%x|%x", c1.Bytes(), c2.Bytes(), t.Bytes(), f.Bytes())
 	var res expr.Expr
-	p, val, stack := mon.Try(func() { res = exprtransform.ConstFold(e) })
+	p, val, stack := mon.Try(func() { exprtransform.ConstFold(e); res = exprtransform.ConstFold(e) })
 	feat := map[string]string{"op": "less"}
 	if p {
 		c.Fail("C10.panic", feat, "ConstFold(%s) panicked: %v\n%s", refir.String(e), val, stack)
+		return
+	}
+	if now := fmt.Sprintf("%x|%x|%x|%x", c1.Bytes(), c2.Bytes(), t.Bytes(), f.Bytes()); now != snap {
+		c.Fail("C10.input-mutated", feat, "ConstFold of a comparison at width %d changed an operand constant: %s -> %s", w, snap, now)
 		return
 	}
 	fc, ok := res.(expr.Const)
@@ -198,7 +222,7 @@ func main() {
 	mon.Main(mon.Spec{
 		Prop: "C10",
 		Rule: "case = one operation (add/lsh/rsh/mul/div/nand/less) on constants: operation width from the boundary set (quick) or every 1..255 (thorough), operand widths <,=,> the operation width, values from boundary byte patterns, shift amounts {0,1,7,8,9,8w-1,8w,8w+1,2^16,2^64,>2^64,random}, divisors {0, nonzero truncating to 0, 1, all-ones}; non-trivial = operand widths differ from the operation width, or shift >= 8, or divisor truncating to zero, or a comparison; distinct by operands",
-		Explanation: "oracle: math/big computation of the documented width rules (zero-extend/truncate operands, result modulo 2^(8w), shift >= 8w gives 0, x/0 = all ones, unsigned compare); the product's ConstFold must return one constant of the operation width with exactly that value",
+		Explanation: "oracle: math/big computation of the documented width rules (zero-extend/truncate operands, result modulo 2^(8w), shift >= 8w gives 0, x/0 = all ones, unsigned compare); the product's ConstFold must return one constant of the operation width with exactly that value, also when the same expression is folded a second time and when one constant object is both operands; operand constants must be byte-identical afterwards",
 		Assumptions: []string{"math/big", "refir.BinOp transcription of the documented rules"},
 		Cases: func(t string) int {
 			if t == "thorough" {
@@ -212,7 +236,7 @@ func main() {
 			}
 			return 500000
 		},
-		RequiredCounts: []string{"op_add", "op_lsh", "op_rsh", "op_mul", "op_div", "op_nand", "op_less"},
+		RequiredCounts: []string{"shared_operand_object", "op_add", "op_lsh", "op_rsh", "op_mul", "op_div", "op_nand", "op_less"},
 		Run:            run,
 	})
 }
